@@ -290,5 +290,5 @@ def run_for(prop, rule, model):
     return {
         "selftest": out,
         "selftest_summary": f"breaking variants caught {sum(1 for b in nb if b['exit'] == 1)}/{len(nb)}; "
-                            f"preserving twins silent {sum(1 for p in out['preserving'] if p['ok'])}/{len(out['preserving'])}",
+                            f"preserving twins silent {sum(1 for p in out['preserving'] if p.get('ok'))}/{sum(1 for p in out['preserving'] if 'ok' in p)}",
     }
